@@ -51,6 +51,16 @@ JudgeC06 ==
               \/ (o.diags[k][1] = n /\ o.diags[k][2] = n)
               \/ (o.diags[k][1] < n /\ o.diags[k][2] = o.diags[k][1] + 1)) \/ Say("C06", "span")
 
+\* C08, event accounting on the recorded run: no action inside an attempt that can still be
+\* undone (the flag is part of the snapshot taken inside the callback), and every node that
+\* was announced and then discarded is announced as deleted.  (The converse is not required:
+\* the implementation also announces the deletion of placeholder nodes that were never
+\* announced as created.)
+JudgeC08 ==
+  LET o == Recs[i].o IN
+  /\ (\A k \in 1..Len(o.ev) : o.ev[k].e = "act" => ~o.ev[k].ioc) \/ Say("C08", "action_in_attempt")
+  /\ CreatedOK(o) \/ Say("C08", "discarded_not_deleted")
+
 JudgeC05 ==
   LET o == Recs[i].o
       u == Strip(G, o.w)
